@@ -33,6 +33,8 @@ Compat(want, got) ==
    \/ want = got
    \/ want.k = "arr" /\ got.k = "arr" /\ (got.a[1].k = "any" \/ Compat(want.a[1], got.a[1]))
    \/ want.k = "union" /\ got.k = "variant" /\ got.a[1] = want.n          \* a constructed variant is a value of its union
+   \/ (want.k = "enum" /\ got.k = "int")                                 \* 3.4.2: enum constants are integers
+   \/ (want.k = "int" /\ got.k = "enum")
 
 FnType(f) == Ty("fn", "", f.ptyS \o <<f.retS>>)            \* parameters then result
 \* "Union.Variant" lookup: <<union index, variant index>> or <<0, 0>>
@@ -65,7 +67,7 @@ BuiltinsT == {"println", "print", "array_length", "at", "array_set", "array_push
               "str_length", "int_to_string", "abs", "min", "max"}
 BuiltinType(name, ts) ==
    LET n == Len(ts) IN
-   CASE name \in {"println", "print"} -> IF n # 1 THEN Err("arity") ELSE IF ts[1].k \in {"int", "bool", "str", "enum"} THEN TVoid ELSE Err("argtype")
+   CASE name \in {"println", "print"} -> IF n # 1 THEN Err("arity") ELSE TVoid      \* print accepts a value of any type (9.5)
      [] name = "array_length" -> IF n # 1 THEN Err("arity") ELSE IF ts[1].k = "arr" THEN TInt ELSE Err("argtype")
      [] name = "at" -> IF n # 2 THEN Err("arity") ELSE IF ts[1].k = "arr" /\ ts[2] = TInt /\ ts[1].a[1].k # "any" THEN ts[1].a[1] ELSE Err("argtype")
      [] name = "array_set" -> IF n # 3 THEN Err("arity") ELSE IF ts[1].k = "arr" /\ ts[2] = TInt /\ Compat(ts[1].a[1], ts[3]) THEN TVoid ELSE Err("argtype")
